@@ -93,6 +93,11 @@ def run(ck):
     rq_pairs = {lit: en for lit, en in tables.chain_pairs(rq)}
     rq_lits = tables.compared_literals(rq)
     rq_enums = {x.rsplit("::", 1)[-1] for x in tables.assigned_enums(rq, "version_")}
+    # (a reader that walks a namespace-scope table of {"literal", Enum} rows: the rows are the pairs)
+    for lit_, en_ in tables.referenced_tables(prog, rq, prog.lambdas_in(rq)).items():
+        if "Version::" in en_:
+            rq_pairs.setdefault(lit_, en_)
+            rq_lits = set(rq_lits) | {lit_}
     rs = lib.single(prog, H + "Private::ResponseLineStep::apply")
     rs_lits = tables.compared_literals(rs)
     probs = []
